@@ -35,8 +35,8 @@ type histWorld struct {
 	mu       sync.Mutex
 	fwd      erpc.Session // proxy -> backend
 	fwdConn  *Conn
-	fwdConnP *Conn // the proxy's end of the backend connection        // backend end of the proxy-backend connection
-	fwdNoise bool // the forwarder lets other replies be received before it hands a finished call back
+	fwdConnP *Conn        // the proxy's end of the backend connection        // backend end of the proxy-backend connection
+	fwdNoise bool         // the forwarder lets other replies be received before it hands a finished call back
 	viaProxy erpc.Session // caller -> proxy
 	direct   erpc.Session // caller -> backend
 	closed   erpc.Session // a session that was closed at start
@@ -251,6 +251,25 @@ func (w *histWorld) op(op, tag string) {
 		a.Close()
 		srv.Close()
 		w.rec.Emit("OpDone", "op", op, "v", statStr(st))
+	case "latepre":
+		// a PreSession kept beyond the preparing phase: PreReceive reports Invalid Operation, and the caller recycles
+		// the message it was given, as the documentation recommends
+		in := w.direct.(erpc.PreSession).PreReceive(func(erpc.Header) interface{} { return new(Arg) })
+		v := statStr(in.Status())
+		socket.PutMessage(in)
+		w.rec.Emit("Probe", "name", "latepre", "v", v, "expected", "1|Invalid Operation|Cannot be called during the Non-PostDial and Non-PostAccept phase")
+		w.rec.Emit("OpDone", "op", op, "v", v)
+	case "userstatus":
+		// an accept hook turns a connection away with a status object of its own, which it first sends with PreSend:
+		// that object is the plugin's, the framework must not change it
+		own := erpc.NewStatus(477, "Own Rejection", "kept by the plugin")
+		srv := erpc.NewPeer(erpc.PeerConfig{}, &ownStatusPlug{own})
+		a, b := Pipe(w.name("UC"), w.name("US"))
+		_, st := srv.ServeConn(b)
+		a.Close()
+		srv.Close()
+		w.rec.Emit("Probe", "name", "userstatus", "v", statStr(own), "expected", "477|Own Rejection|kept by the plugin")
+		w.rec.Emit("OpDone", "op", op, "v", statStr(st))
 	case "overloadreject":
 		srv := erpc.NewPeer(erpc.PeerConfig{}, overloader.New(overloader.LimitConfig{MaxConn: 1}))
 		a1, b1 := Pipe(w.name("OC"), w.name("OS"))
@@ -272,6 +291,15 @@ func (w *histWorld) op(op, tag string) {
 		s1.Close()
 		w.rec.Emit("OpDone", "op", op, "v", statStr(st))
 	}
+}
+
+// ownStatusPlug sends its own status object to the remote end and rejects the connection with it.
+type ownStatusPlug struct{ st *erpc.Status }
+
+func (p *ownStatusPlug) Name() string { return "own-status" }
+func (p *ownStatusPlug) PostAccept(sess erpc.PreSession) *erpc.Status {
+	sess.PreSend(erpc.TypePush, "/own/notice", nil, p.st)
+	return p.st
 }
 
 func drvHist(args []string) int {
